@@ -59,4 +59,20 @@ theorem date_attr_shifts_window (m : ManSrc) (hd : m.dur ≠ 0) (hp : m.pos = .s
   simp [ManSrc.attr, ManSrc.start, hp]
   omega
 
+/-! ## user-defined field names in KVN -/
+
+/-- the constants read from the source fit together: the readers skip exactly the prefix the writers put, and test a prefix of it -/
+theorem ud_prefix_tables : udWritePrefix.toList.length = udReadSkip ∧ udReadPrefix.toList.isPrefixOf udWritePrefix.toList = true := by decide
+
+/-- **User-defined fields, KVN, every name** (clause "user-defined fields"): whatever the name — underscores, digits, lower case, a name
+that itself starts with `USER_DEFINED_` or `MAN_` — the key the writers print is recognised by the readers and stripped back to the name. -/
+theorem ud_key_roundtrip (name : List Char) : udKeyIn (udKeyOut name) = some name := by
+  obtain ⟨hlen, hpre⟩ := ud_prefix_tables
+  have hp : udReadPrefix.toList.isPrefixOf (udWritePrefix.toList ++ name) = true := by
+    rw [List.isPrefixOf_iff_prefix] at hpre ⊢
+    exact hpre.trans (List.prefix_append _ _)
+  simp only [udKeyIn, udKeyOut, hp, if_true, ← hlen, List.drop_left]
+
+example : udKeyIn (udKeyOut "EARTH_MODEL".toList) = some "EARTH_MODEL".toList := ud_key_roundtrip _
+
 end BeyondVerif.C13
